@@ -26,6 +26,8 @@
 (*     <<700, i, len, truthy>>   the serialisation of script C.scr[i]      *)
 (*     <<810, lv, par, k, form, m, pad>>  taproot control block            *)
 (*     <<820, k, form, sid, lv, m>>       taproot output key               *)
+(*        (both optionally followed by a sibling pattern: bit j says on    *)
+(*         which side of the node the j-th sibling hash sorts)             *)
 (* Equality of values is structural: hashes are injective constructors.    *)
 (* The harness (harness/cmd/script) maps tokens to real bytes.             *)
 (*                                                                         *)
@@ -621,6 +623,7 @@ TaprootCommitmentOK(control, prog, script, C) ==
     /\ 2 * (control[2] \div 2) = prog[5]                 \* and leaf version
     /\ control[6] = prog[6]                              \* at the committed depth
     /\ control[7] = 0
+    /\ (IF Len(control) >= 8 THEN control[8] ELSE -1) = (IF Len(prog) >= 7 THEN prog[7] ELSE -1)   \* with the committed siblings
 
 VerifyWitnessProgram(wit, ver, prog, F, isP2SH, C) ==
     IF ver = 0 THEN
